@@ -237,8 +237,10 @@ static int read_block_header(struct bunzip_data *bd, struct bwdata *bw)
   for (ii=0; ii<bd->nSelectors; ii++) {
 
     // Get next value
+    /* libxmp: the position must stay below groupCount (the old test let
+     * jj == groupCount through and read a stale mtfSymbol[] entry). */
     for(jj=0;get_bits(bd,1);jj++)
-      if (jj>=bd->groupCount) return RETVAL_DATA_ERROR;
+      if (jj+1>=bd->groupCount) return RETVAL_DATA_ERROR;
 
     // Decode MTF to get the next selector, and move it to the front.
     uc = bd->mtfSymbol[jj];
